@@ -218,6 +218,10 @@ impl HitObjectsState {
             Ok(())
         };
 
+        // A previous line might have failed after some of its segments were
+        // already converted.
+        self.curve_points.clear();
+
         self.point_split(point_str.split('|'), f)
     }
 
